@@ -29,6 +29,7 @@ Plan gen_c07(uint64_t seed, int tier)
   for (int i = 0; i < nsinks; ++i)
   {
     p.cfg["sink" + std::to_string(i) + "_type"] = 1; // real FileSink
+    p.cfg["sink" + std::to_string(i) + "_notifier"] = Rng(seed ^ static_cast<uint64_t>(0x77 + i)).chance(1, 3) ? 1 : 0; // with FileEventNotifier callbacks
   }
   for (int i = 0; i < nloggers; ++i)
   {
